@@ -124,7 +124,8 @@ def patterns(layout, n):
         for p in range(rows):
             for k in range(n):
                 out.append((kind, p, k))
-    out += [('ramp_r',), ('ramp_i',), ('ramp_c',), ('rnd',)]
+    # scale members: the statement is scale free (tiny amplitude; O(1) in-phase with a 1e-9 quadrature part; large amplitude)
+    out += [('ramp_r',), ('ramp_i',), ('ramp_c',), ('rnd',), ('ramp_tiny',), ('ramp_quad',), ('ramp_big',)]
     return out
 
 
@@ -135,6 +136,15 @@ def _pattern_array(layout, n, pat, seed):
         _, p, k = pat
         a = np.zeros((rows, n), dtype=float if kind == 'e' else complex)
         a[p, k] = 1j if kind == 'je' else 1.0
+    elif kind in ('ramp_tiny', 'ramp_quad', 'ramp_big'):
+        r0 = np.arange(1, n + 1)
+        base = np.array([r0 * (1 + 0.5j), (-2.0 * r0[::-1] + 0.5) * (0.5 - 1j)][:rows], dtype=complex)
+        if kind == 'ramp_tiny':
+            a = base * 1e-10
+        elif kind == 'ramp_big':
+            a = base * 1e6
+        else:
+            a = base.real + 1e-9j * base.imag
     elif kind in ('ramp_r', 'ramp_i', 'ramp_c'):
         r0 = np.arange(1, n + 1)
         if kind == 'ramp_i':
